@@ -245,6 +245,14 @@ Theorem svcb_roundtrip_origin : forall o prio target ps b A P,
 Proof. exact svcb_roundtrip_origin_thm. Qed.
 Print Assumptions svcb_roundtrip_origin.
 
+(* APL, LOC and OPT do not depend on the origin at all: their theorems hold for every origin *)
+Theorem hand_origin_irrelevant : forall h o wire cur rdlen vs,
+  (h = HApl \/ h = HLoc \/ h = HOpt) ->
+  hand_decode_rdata h o wire cur rdlen = hand_decode_rdata h None wire cur rdlen /\
+  hand_encode_rdata h o vs = hand_encode_rdata h None vs.
+Proof. exact hand_origin_irrelevant_thm. Qed.
+Print Assumptions hand_origin_irrelevant.
+
 (* second half of the property for hand-modelled codecs without normalisation: an accepted octet
    string yields a record whose own encoding exists and decodes to the same record *)
 Theorem hip_fixed_point : forall wire cur rdlen vs,
